@@ -1,6 +1,8 @@
 import Plotink.Proofs.C06
 import Plotink.Proofs.C06GenTop
 import Plotink.Proofs.C06GenEbb3Methods
+import Plotink.Proofs.C06GenEbb3Full
+import Plotink.Proofs.C06GenQueryPI
 
 /-! # C06 — motion / configuration helpers emit exactly the documented EBB command text
 
@@ -448,6 +450,109 @@ theorem C06_gen_noport (b : Board) (fuel : Nat) (vb : PyObj.Val) (r : Req) :
       rw [hl] at h2; simpa using h2
 
 
+/-! ## Every constructor both layers serve (regenerated code)
+
+`legacyGenFull` / `ebb3GenFull` add the helpers that were still missing above: legacy `query_enable_motors` (under
+`RepliesFor`: each of its five replies carries the marker `PI,`), and the 15 remaining EBB3 methods — the query methods
+(`var_read`, `dio_b_read`, `query_steps`, `query_voltage`, `query_current`, `motors_query_enabled`, `query_nickname`,
+`query_statusbyte`) and the direct writes (`reboot`, `bootload`) for every script of the domain, and the methods that
+transmit several requests (`timed_pause`, `motors_enable`, `dio_b_config`, `var_write_int32`, `var_read_int32`) under the
+acknowledging-script hypothesis `C06Gen.AckFor` (`Ebb3.Acked`: each documented request, in turn, is answered within its
+retry window by a line beginning with its name and without `Err:`, on a write that does not fault; `QL` payloads are
+integers; the `QE` payload reports the board state).  The EBB3 side goes through the master bridge `Ebb3Gen.gen_bridge`
+(regenerated method ~ `Ebb3.run srcParams scriptDev`). -/
+
+open C06Gen in
+/-- **Legacy layer, regenerated code, all 24 requests.** -/
+theorem C06_gen_legacy_documented_full (b : Board) (fuel : Nat) (vb : PyObj.Val) (w : PyObj.World PyObj.NoObj) (r : Req)
+    (o : PyObj.Out PyObj.NoObj) (hf : FuelFor fuel r) (hd : Dom w.port) (hrep : RepliesFor r w.port)
+    (ho : legacyGenFull fuel true vb w r = some o) :
+    ∃ sent, Wrote o w (some sent) ∧
+      (sent = legacyGate r ++ documented b r ∨ (legacyGate r ≠ [] ∧ sent = legacyGate r)) := by
+  obtain ⟨fwOk, hw⟩ := legacyGenFull_emit fuel true vb w r o hf hd (fun _ => hrep) ho
+  have hs : legacySupports r := (legacyGenFull_isSome fuel true vb w r).mp (by rw [ho]; rfl)
+  have hsome : ∀ f, ∃ l, legacyEmit true f r = some l := fun f =>
+    Option.isSome_iff_exists.mp ((C06_supports true f b r).1.mpr hs)
+  obtain ⟨l, hl⟩ := hsome fwOk
+  refine ⟨l, by rw [← hl]; exact hw, ?_⟩
+  cases fwOk with
+  | true => exact Or.inl (C06_legacy_documented b r l hl)
+  | false =>
+    by_cases hg : legacyGate r = []
+    · rw [(C06_legacy_gate r).2 hg] at hl
+      exact Or.inl (C06_legacy_documented b r l hl)
+    · rw [(C06_legacy_gate r).1 hg] at hl
+      cases hl
+      exact Or.inr ⟨hg, rfl⟩
+
+open C06Gen Ebb3Gen in
+/-- **EBB3 layer, regenerated code, all 29 requests.**  On a connected object with no recorded error every method hands
+exactly the documented request(s) to the port — the multi-request methods when the script acknowledges them. -/
+theorem C06_gen_ebb3_documented_full (b : Board) (fuel : Nat) (w : PyObj.World Gen.EBB3_Obj) (hg : Good w)
+    (he : w.obj.err = .none) (hc : connected w = true) (r : Req) (o : PyObj.Out Gen.EBB3_Obj)
+    (hside : Ebb3Side fuel w r) (hsup : ebb3Supports r) (hack : AckFor b r (absWorld w).dev)
+    (ho : ebb3GenFull fuel w r = some o) :
+    Wrote3 o w (some (documented b r)) := by
+  unfold ebb3GenFull at ho
+  cases h : ebb3Gen fuel w r with
+  | some o' =>
+    rw [h] at ho
+    simp only [Option.some.injEq] at ho
+    subst ho
+    exact C06_gen_ebb3_documented b fuel hside.1 w hg he hc r o' h
+  | none =>
+    rw [h] at ho
+    cases hcall : callNew r with
+    | none => rw [hcall] at ho; cases ho
+    | some c =>
+      rw [hcall] at ho
+      simp only [Option.map_some, Option.some.injEq] at ho
+      subst ho
+      obtain ⟨hfc, hpc⟩ := hside.2 c hcall
+      exact ebb3New_emit fuel b w hg he hc r c hcall hfc hpc hsup hack
+
+open C06Gen Ebb3Gen in
+/-- **The two regenerated layers transmit the same text** for every request both serve (the legacy gate query aside). -/
+theorem C06_gen_layers_agree_full (b : Board) (fuel : Nat) (vb : PyObj.Val) (r : Req)
+    (w₁ : PyObj.World PyObj.NoObj) (o₁ : PyObj.Out PyObj.NoObj) (hf₁ : FuelFor fuel r) (hd : Dom w₁.port)
+    (hrep : RepliesFor r w₁.port) (h₁ : legacyGenFull fuel true vb w₁ r = some o₁)
+    (w₂ : PyObj.World Gen.EBB3_Obj) (o₂ : PyObj.Out Gen.EBB3_Obj) (hg : Good w₂) (he : w₂.obj.err = .none)
+    (hc : connected w₂ = true) (hside : Ebb3Side fuel w₂ r) (hsup : ebb3Supports r) (hack : AckFor b r (absWorld w₂).dev)
+    (h₂ : ebb3GenFull fuel w₂ r = some o₂) :
+    ∃ l₁ l₂, Wrote o₁ w₁ (some l₁) ∧ Wrote3 o₂ w₂ (some l₂) ∧
+      (l₁ = legacyGate r ++ l₂ ∨ (legacyGate r ≠ [] ∧ l₁ = legacyGate r)) := by
+  obtain ⟨l₁, hw₁, hcase⟩ := C06_gen_legacy_documented_full b fuel vb w₁ r o₁ hf₁ hd hrep h₁
+  exact ⟨l₁, documented b r, hw₁, C06_gen_ebb3_documented_full b fuel w₂ hg he hc r o₂ hside hsup hack h₂, hcase⟩
+
+open C06Gen Ebb3Gen in
+/-- **Coverage**: `ebb3GenFull` serves exactly the requests the EBB3 layer serves (for in-range 32-bit values), and
+`legacyGenFull` exactly those the legacy layer serves. -/
+theorem C06_gen_full_coverage (fuel : Nat) (b : Board) (vb : PyObj.Val) (w₁ : PyObj.World PyObj.NoObj)
+    (w₂ : PyObj.World Gen.EBB3_Obj) (r : Req) :
+    ((legacyGenFull fuel true vb w₁ r).isSome ↔ legacySupports r) ∧
+    (ebb3Supports r → (ebb3GenFull fuel w₂ r).isSome) := by
+  refine ⟨legacyGenFull_isSome fuel true vb w₁ r, fun h => ?_⟩
+  exact ebb3GenFull_isSome fuel w₂ b r ((C06_supports true true b r).2.mpr h)
+
+open C06Gen Ebb3Gen in
+/-- **Pause, regenerated EBB3 code**: when the script acknowledges them, `timed_pause` appends zero-moves `SM,<d>,0,0`
+whose durations each lie in 1..750 and sum to `n` (`n ≥ 1`), and nothing when `n ≤ 0`. -/
+theorem C06_gen_pause_ebb3 (b : Board) (fuel : Nat) (n : Int) (hf : max 26 (n.toNat + 1) ≤ fuel) (w : PyObj.World Gen.EBB3_Obj)
+    (hg : Good w) (he : w.obj.err = .none) (hc : connected w = true) (hack : AckFor b (.timedPause n) (absWorld w).dev) :
+    ∃ (ds : List Int) (w' : PyObj.World Gen.EBB3_Obj),
+      outWorld3 (Gen.EBBMotionWrap_timed_pause fuel (.int n) w) = some w' ∧
+      w'.port.log = w.port.log ++ ds.map (fun d => (Cmd.wire ⟨"SM", [d, 0, 0]⟩).toList) ∧
+      (n ≤ 0 → ds = []) ∧ (1 ≤ n → (∀ d ∈ ds, 1 ≤ d ∧ d ≤ 750) ∧ ds.sum = n) := by
+  obtain ⟨ds, _, hl, h0, h1⟩ := C06_pause b n
+  have hdoc : documented b (.timedPause n) = ds.map (fun d => ⟨"SM", [d, 0, 0]⟩) := by
+    have := C06_ebb3_documented b (.timedPause n) _ hl
+    exact this.symm
+  obtain ⟨w', e1, e2⟩ := ebb3New_emit fuel b w hg he hc (.timedPause n) (.timed_pause n) rfl hf trivial trivial hack
+  refine ⟨ds, w', e1, ?_, h0, h1⟩
+  rw [e2, hdoc]
+  simp [List.map_map, Function.comp_def]
+
+
 section
 open C06Gen Ebb3Gen PyObj
 /-- non-vacuity of the domains: a script with an acknowledgement, a silent read, a serial fault and a failing write -/
@@ -463,6 +568,13 @@ example : Good ⟨{ Gen.EBB3_Obj.init with port := .port }, C06Gen.exPort, ⟨.o
   · simp [C06Gen.exPort] at hc; subst hc; show PyIO.catches _ _ = true; decide
   · simp [C06Gen.exPort] at hc; subst hc; show PyIO.catches _ _ = true; decide
   · simp [C06Gen.exPort] at hb; subst hb; decide
+/-- non-vacuity of the acknowledging-script and reply hypotheses -/
+example : AckFor ⟨0, 0⟩ (.pbConfig 1 1 0) ⟨[.line ['P', 'O', '\r', '\n'], .line [], .line ['P', 'D']], []⟩ := by
+  refine ⟨⟨rfl, ['P', 'O'], by decide, by decide, by decide⟩, ⟨rfl, ['P', 'D'], by decide, by decide, by decide⟩, trivial⟩
+example : RepliesFor .queryMotorsPI ⟨[.line ['P', 'I', ',', '1'], .line ['P', 'I', ',', '0'], .line ['P', 'I', ',', '1'], .line ['P', 'I', ',', '1'], .line ['P', 'I', ',', '1']], [], [], 0⟩ := by
+  refine ⟨⟨['P', 'I', ',', '1'], by decide, ['1'], rfl⟩, ⟨['P', 'I', ',', '0'], by decide, ['0'], rfl⟩,
+    ⟨['P', 'I', ',', '1'], by decide, ['1'], rfl⟩, ⟨['P', 'I', ',', '1'], by decide, ['1'], rfl⟩,
+    ⟨['P', 'I', ',', '1'], by decide, ['1'], rfl⟩, trivial⟩
 end
 
 end Plotink
